@@ -26,6 +26,9 @@ RULE = ('M1: every sequence of <=2 (quick) / <=3 (thorough) AddSegment/RemoveSeg
         'transition days; IsInside probed at every range boundary +-1 s and on a 30-minute grid; '
         'm2-month-name: every form that names a month, seen from windows in the named month, the month before/after, at month ends and around Feb 28/29 of 2034/2035/2036; '
         'm2-nth-transition: n-th weekday searches walking over every transition day of every zone; m2-mktime: libc mktime against the table model before/at/inside/after every skipped and repeated hour; '
+        'm2-range-list: one day, 2-4 ranges of one comma-separated list in every relative position (disjoint, adjacent, overlapping, nested, identical, nested ending/beginning together, three- and four-level nesting, outer with several inner) x every written order (all permutations up to 3 ranges, 6 of 24 for 4 in the quick tier) x {within the day, across midnight (wrap form or hour >= 24), ending at 24:00} x {one key, weekday + date key sharing the list, a referencing period with included/excluded periods whose lists nest likewise}; '
+        'm2-rolling: 48-72 h of the REAL TimePeriod::UpdateTimerHandler() after Start() (5-minute rounds around every local midnight, 15 min - 2 h steps and one stall of 5-9 h in between), the referencing period created (= updated in every round) before, between or after the periods it includes/excludes, those with ranges running past midnight; every round judged at every probe from one hour before the round up to valid_end; '
+        'the probes of every calendar case contain both boundaries of every written range (+-1 s) and the middle of every gap between consecutive boundaries - the oracle recomputes that list from the written ranges and refuses to decide otherwise; '
         'm2-parse-*: 126 hand-made corner strings and mutated printed strings through config validation (accepted/rejected, code against the parser model), odd but accepted strings evaluated. '
         'non-trivial = at least one observed state with a segment and both inside and outside probes; distinct = distinct script text')
 TRUSTED = ['model: coq/Tp/TpModel.v (transcription of timeperiod.cpp 41-301), coq/Tp/TpCal.v (transcription of legacytimeperiod.cpp '
@@ -37,7 +40,8 @@ TRUSTED = ['model: coq/Tp/TpModel.v (transcription of timeperiod.cpp 41-301), co
 ASSUMPTIONS = ['times are whole seconds (exact in binary64)',
                'local midnight exists exactly once on every day the loops ask about (true for the four zones used; checked by computation per case: tp_cal_hyps_ok)',
                'range boundaries are local times that exist exactly once on the days of the window (the property\'s own restriction); generated time-of-day boundaries avoid 01:00-03:00 in zones with DST',
-               'periods referenced by includes/excludes are updated before the referencing period, for the same window',
+               'single-window families: periods referenced by includes/excludes are updated before the referencing period, for the same window; family m2-rolling: any order, the statement then refers to the referenced periods as they were at the last round that recomputed (C08_rolling_updates)',
+               'rolling updates (hypotheses of C08_rolling_updates, not proved for the calendar function, exercised by m2-rolling): referenced periods have no includes/excludes of their own (their inside sets only grow), ranges begin within their day and end at most 48 h after its 00:00',
                'numbers in generated strings stay below 2^31 in magnitude except for the listed overflow probes; n-th weekday numbers stay small (the search is linear in n); huge negative month days (boost::gregorian range errors) are not generated']
 
 MONTHS = ['january', 'february', 'march', 'april', 'may', 'june', 'july', 'august', 'september', 'october', 'november', 'december']
@@ -376,19 +380,32 @@ def range_line(name, ddstr, ddast, trs, rnd):
                                                         ','.join('%d-%d' % t for t in trs))
 
 
-def cal_probes(zn, wb, we, all_trs):
-    pts = set()
-    for v in (wb, we):
-        pts.update((v - 1, v, v + 1))
-    d0 = (wb + off_at(zn, wb)) // 86400
-    d1 = (we + off_at(zn, we)) // 86400
+def spec_bounds(zn, lo, hi, all_trs):
+    """the instants of both boundaries of every written time range on every day that can reach [lo, hi] - the Python
+    mirror of TpCalObs.tp_spec_bounds (the oracle recomputes them in Gallina and refuses to decide, class 'probes',
+    when the probes of the case do not cover them)"""
+    out = set()
+    d0 = (lo + off_at(zn, lo)) // 86400
+    d1 = (hi + off_at(zn, hi)) // 86400
     for d in range(d0 - 3, d1 + 2):
         for tb, te in all_trs:
             te2 = te + 86400 if te <= tb else te
             for l in (d * 86400 + tb, d * 86400 + te2):
                 u = mk_local(zn, l)
-                if wb - 7200 <= u <= we + 7200:
-                    pts.update((u - 1, u, u + 1))
+                if lo <= u <= hi:
+                    out.add(u)
+    return sorted(out)
+
+
+def cal_probes(zn, wb, we, all_trs):
+    pts = set()
+    for v in (wb, we):
+        pts.update((v - 1, v, v + 1))
+    bounds = spec_bounds(zn, wb - 7200, we + 7200, all_trs)
+    for u in bounds:
+        pts.update((u - 1, u, u + 1))
+    for u1, u2 in zip(bounds, bounds[1:]):
+        pts.add((u1 + u2) // 2)                            # the middle of every stretch on which the statement is constant
     t = wb - wb % 1800
     while t <= we + 1800:
         pts.add(t)
@@ -494,21 +511,314 @@ def gen_m2(rnd, tier):
                 body.append(range_line(nm, s, a, trs, rnd))
                 if rnd.random() < 0.3:
                     add_entries(nm, 1, ['spec'], shapes)
-        lines.append('tp_pts ' + ','.join(str(p) for p in cal_probes(zn, wb, we, all_trs)))
+        # the timer path: extend the window
+        we2 = we + rnd.choice((300, 3600, 86400)) if rnd.random() < 0.25 else None
+        lines.append('tp_pts ' + ','.join(str(p) for p in cal_probes(zn, wb, we2 or we, all_trs)))
         lines += body
         for nm in reversed(names):
             lines.append('tp_upd name=%s b=%d e=%d clear=1' % (nm, wb, we))
-        if rnd.random() < 0.25:
-            # the timer path: extend the window
-            we2 = we + rnd.choice((300, 3600, 86400))
+        if we2 is not None:
             for nm in reversed(names):
                 lines.append('tp_upd name=%s b=%d e=%d clear=0' % (nm, we, we2))
         cases.append({'lines': lines, 'tags': {'family': fam, 'zone': zn, 'transition_window': bool(want_tr)}})
     cases += gen_month_family(random.Random(rnd.random()), tier)
+    cases += gen_range_lists(random.Random(rnd.random()), tier)
+    cases += gen_rolling(random.Random(rnd.random()), tier)
     cases += gen_transition_families(random.Random(rnd.random()), tier)
     cases += gen_parse_families(random.Random(rnd.random()), tier)
     cases += directed_m2()
+    cases += directed_rolling()
     return cases
+
+
+# ----------------------------------------------------------------------------- M2: range LISTS of one day
+# relative positions of the ranges of one comma-separated list, as (begin, end) indices into six ascending instants
+LIST_CONFIGS = [
+    ('disjoint', [(0, 1), (2, 3)]), ('adjacent', [(0, 1), (1, 2)]), ('overlapping', [(0, 2), (1, 3)]),
+    ('nested', [(0, 3), (1, 2)]), ('identical', [(0, 1), (0, 1)]), ('nested-end-together', [(0, 2), (1, 2)]),
+    ('nested-begin-together', [(0, 2), (0, 1)]),
+    ('three-level', [(0, 5), (1, 4), (2, 3)]), ('three-level-end-together', [(0, 3), (1, 3), (2, 3)]),
+    ('three-level-begin-together', [(0, 3), (0, 2), (0, 1)]),
+    ('outer-two-inner', [(0, 5), (1, 2), (3, 4)]), ('nested-then-disjoint', [(0, 3), (1, 2), (4, 5)]),
+    ('nested-then-adjacent', [(0, 3), (1, 2), (3, 4)]), ('nested-then-overlapping', [(0, 3), (1, 2), (2, 5)]),
+    ('chain', [(0, 2), (1, 4), (3, 5)]), ('identical-plus-nested', [(0, 3), (0, 3), (1, 2)]),
+    ('overlapping-plus-nested-in-both', [(0, 3), (1, 4), (2, 3)]),
+    ('outer-with-adjacent-chain', [(0, 5), (1, 2), (2, 3), (3, 4)]), ('two-nested-pairs', [(0, 3), (1, 2), (3, 5), (4, 5)]),
+    ('four-level', [(0, 5), (0, 4), (1, 4), (2, 3)]), ('disjoint-and-nested-and-identical', [(0, 1), (2, 5), (3, 4), (0, 1)]),
+]
+
+
+def list_points(rnd, zn, mode):
+    """six ascending seconds-of-day (possibly beyond 24:00), every one a local time that exists once on every day"""
+    lo, hi = {'day': (0, 86400), 'late': (43200, 86400), 'wrap': (64800, 108000)}[mode]
+    while True:
+        step = rnd.choice((900, 900, 1800, 60, 1))
+        pts = sorted(set(rnd.randrange(lo // step, hi // step + 1) * step for _ in range(6)))
+        if len(pts) < 6:
+            continue
+        if zn != 'UTC' and any(3600 <= q % 86400 < 10800 for q in pts):
+            continue
+        if mode == 'late':
+            pts[5] = 86400
+            if pts[4] >= 86400:
+                continue
+        if mode == 'wrap' and not (pts[2] < 86400 < pts[3]):
+            continue
+        return pts
+
+
+def written_range(rnd, pb, pe):
+    """a range [pb, pe) counted from 00:00 of its day -> (tb, te) as written: an end beyond 24:00 is written as a wrap
+    (end <= begin means next day) where that says the same, or with an hour >= 24"""
+    if pe > 86400 and pb < 86400 and pe - 86400 <= pb and rnd.random() < 0.6:
+        return (pb, pe - 86400)
+    return (pb, pe)
+
+
+def gen_range_lists(rnd, tier):
+    """one day, 2-4 ranges in every relative position and every written order; under one key, split over two keys
+    that both match the day (weekday + date), and with included / excluded periods whose lists nest likewise"""
+    out = []
+    reps = {'quick': 1, 'thorough': 5, 'search': 2}.get(tier, 1)
+    nperm4 = {'quick': 6, 'thorough': 24, 'search': 12}.get(tier, 6)
+    i = 0
+    for _ in range(reps):
+        for cname, cfg in LIST_CONFIGS:
+            perms = list(itertools.permutations(range(len(cfg))))
+            if len(cfg) > 3:
+                perms = rnd.sample(perms, nperm4)
+            for perm in perms:
+                for mode in ('day', 'wrap', 'late'):
+                    if mode == 'late' and rnd.random() < 0.6:
+                        continue
+                    for variant in ('one-key', 'two-keys', 'referenced'):
+                        i += 1
+                        zn = ZONES[i % 4]
+                        want_tr = zn != 'UTC' and rnd.random() < 0.3
+                        if want_tr:
+                            at = rnd.choice(anchors(zn))
+                            day = (at + off_at(zn, at - 1)) // 86400 + rnd.choice((-1, 0, 0, 1))
+                        else:
+                            day = T0 // 86400 + rnd.randint(3, 700)
+                        D = datetime.date(1970, 1, 1) + datetime.timedelta(days=day)
+                        wd = (D.weekday() + 1) % 7
+                        kw = daydef(('w', wd, 0, -1))
+                        kd = daydef(('d', D.year, D.month, D.day))
+                        pts = list_points(rnd, zn, mode)
+                        trs = [written_range(rnd, pts[cfg[k][0]], pts[cfg[k][1]]) for k in perm]
+                        wb = mk_local(zn, day * 86400) + rnd.choice((0, 0, -7200, 43200 + 1800))
+                        we = wb + rnd.choice((86400, 86400 + 7200, 2 * 86400))
+                        all_trs = list(trs)
+                        body = []
+                        names = ['a']
+                        if variant == 'one-key':
+                            body.append('tp_new name=a')
+                            body.append(range_line('a', kw[0], kw[1], trs, rnd))
+                        elif variant == 'two-keys':
+                            body.append('tp_new name=a')
+                            if rnd.random() < 0.5:
+                                k = rnd.randint(1, len(trs) - 1)
+                                l1, l2 = trs[:k], trs[k:]
+                            else:                                # both keys carry the whole list, in different orders
+                                l1, l2 = trs, list(trs)
+                                rnd.shuffle(l2)
+                            body.append(range_line('a', kw[0], kw[1], l1, rnd))
+                            body.append(range_line('a', kd[0], kd[1], l2, rnd))
+                        else:
+                            # the referencing period has a list of its own (another configuration over the same six
+                            # instants); the referenced ones carry the list of this case
+                            names = ['a', 'b', 'c'][:rnd.choice((2, 2, 3))]
+                            _, cfg2 = rnd.choice(LIST_CONFIGS)
+                            own = [written_range(rnd, pts[x], pts[y]) for x, y in cfg2]
+                            rnd.shuffle(own)
+                            all_trs += own
+                            role = rnd.choice(('inc', 'exc'))
+                            other = {'inc': 'exc', 'exc': 'inc'}[role]
+                            refs = {role: ['b'], other: ['c'] if len(names) == 3 else []}
+                            body.append('tp_new name=a prefer=%d inc=%s exc=%s' % (rnd.randint(0, 1), ','.join(refs['inc']) or '-', ','.join(refs['exc']) or '-'))
+                            body.append('tp_new name=b')
+                            body.append(range_line('a', kw[0], kw[1], own, rnd))
+                            kb = rnd.choice((kw, kd))
+                            body.append(range_line('b', kb[0], kb[1], trs, rnd))
+                            if len(names) == 3:
+                                _, cfg3 = rnd.choice(LIST_CONFIGS)
+                                l3 = [written_range(rnd, pts[x], pts[y]) for x, y in cfg3]
+                                rnd.shuffle(l3)
+                                all_trs += l3
+                                body.append('tp_new name=c')
+                                body.append(range_line('c', kw[0], kw[1], l3, rnd))
+                        lines = ['now %d' % T0, tz_line(zn, wb - 5 * 86400, we + 5 * 86400),
+                                 'tp_pts ' + ','.join(str(p) for p in cal_probes(zn, wb, we, all_trs))] + body
+                        for nm in reversed(names):
+                            lines.append('tp_upd name=%s b=%d e=%d clear=1' % (nm, wb, we))
+                        nested = any(a != b and cfg[a][0] <= cfg[b][0] and cfg[b][1] < cfg[a][1]
+                                     for a in range(len(cfg)) for b in range(len(cfg)))
+                        out.append({'lines': lines, 'tags': {'family': 'm2-range-list', 'zone': zn, 'transition_window': bool(want_tr),
+                                                            'list_config': cname, 'list_mode': mode, 'list_variant': variant,
+                                                            'list_len': len(cfg), 'list_nested_ending_earlier': nested}})
+    return out
+
+
+# ----------------------------------------------------------------------------- M2: rolling updates (Start + timer rounds)
+
+def roll_probes(zn, lo, hi, all_trs):
+    pts = set((lo - 1, lo, lo + 1))
+    bounds = spec_bounds(zn, lo - 7200, hi, all_trs)
+    for u in bounds:
+        pts.update((u - 1, u, u + 1))
+    for u1, u2 in zip(bounds, bounds[1:]):
+        pts.add((u1 + u2) // 2)
+    t = lo - lo % 7200
+    while t <= hi:
+        pts.add(t)
+        t += 7200
+    base, tab, _, _ = zone_table(zn)
+    for ti, _ in tab:
+        if lo <= ti <= hi:
+            pts.update((ti - 1, ti, ti + 1))
+    return sorted(pts)
+
+
+def gen_rolling(rnd, tier):
+    """what the daemon does over two to three days: every period is started (UpdateRegion(now, now + 24 h, true)) and then
+    goes through the REAL TimePeriod::UpdateTimerHandler() round after round (5-minute rounds around every local
+    midnight, longer steps and an occasional stall in between).  The referencing period is created - and therefore
+    updated in every round - before, between or after the periods it includes / excludes; those have ranges running
+    past midnight (their valid_end runs ahead, so they compute each new day later than the others)."""
+    out = []
+    n = {'quick': 40, 'thorough': 240, 'search': 100}.get(tier, 40)
+    for i in range(n):
+        zn = ZONES[i % 4]
+        trs_dst = zn != 'UTC'
+        if trs_dst and rnd.random() < 0.4:
+            at = rnd.choice(anchors(zn))
+            day0 = (at + off_at(zn, at - 1)) // 86400 - rnd.choice((1, 2))        # the rounds walk over the transition
+            crosses = True
+        else:
+            day0 = T0 // 86400 + rnd.randint(3, 700)
+            crosses = False
+        n0 = mk_local(zn, day0 * 86400) + rnd.choice((10 * 3600 + 17 * 60, 23 * 3600 + 50 * 60, 5 * 60, 12 * 3600, rnd.randrange(0, 86400)))
+        span = rnd.choice((48, 60, 72)) * 3600
+
+        def tod(lo, hi):
+            return safe_tod(rnd, zn, lo, hi)
+
+        def wrap_list():
+            tb = tod(18 * 3600, 86399)
+            te = tod(0, 6 * 3600) if not trs_dst else rnd.choice((tod(0, 3599), tod(10800, 6 * 3600)))
+            l = [(tb, te)]
+            if rnd.random() < 0.7:
+                mb = tod(te + 1800 if te >= 10800 else 10800, 11 * 3600)
+                l.append((mb, tod(mb + 600, 12 * 3600)))
+            if rnd.random() < 0.3:                      # nested in the wrapping range, before midnight
+                ib = tod(tb, 86399)
+                l.append((ib, tod(ib, 86400)))
+            rnd.shuffle(l)
+            return [x for x in l if x[0] != x[1]]
+
+        def day_list():
+            k = rnd.random()
+            if k < 0.25:
+                return [(0, 86400)]
+            if k < 0.5:
+                b = tod(6 * 3600, 10 * 3600)
+                return [(b, tod(15 * 3600, 20 * 3600))]
+            if k < 0.75:
+                b1 = tod(7 * 3600, 9 * 3600)
+                e1 = tod(11 * 3600, 12 * 3600)
+                b2 = tod(e1, 14 * 3600)
+                return [(b1, e1), (b2, tod(16 * 3600, 86400))]
+            _, cfg = rnd.choice(LIST_CONFIGS)
+            pts = list_points(rnd, zn, 'day')
+            l = [(pts[x], pts[y]) for x, y in cfg]
+            rnd.shuffle(l)
+            return l
+
+        def inner_list(outer):
+            """ranges inside the first range of the referencing period (lunch), sharing a boundary now and then"""
+            b, e = outer[0] if outer[0][1] > outer[0][0] else (outer[0][0], 86400)
+            if e - b < 7200:
+                return [(tod(11 * 3600, 12 * 3600), tod(12 * 3600 + 60, 14 * 3600))]
+            k = rnd.random()
+            ib = b if k < 0.2 else tod(b + 600, (b + e) // 2)
+            ie = e if 0.2 <= k < 0.4 else tod(ib + 600, e - 300)
+            return [(ib, ie)]
+
+        shape = rnd.choice(('work-lunch', 'always-wrap', 'always-wrap', 'include-wrap', 'both', 'random'))
+        own = {'work-lunch': day_list, 'always-wrap': lambda: [(0, 86400)], 'include-wrap': day_list, 'both': day_list, 'random': day_list}[shape]()
+        refs = {}
+        if shape == 'work-lunch':
+            refs['b'] = ('exc', inner_list(own))
+        elif shape == 'always-wrap':
+            refs['b'] = ('exc', wrap_list())
+        elif shape == 'include-wrap':
+            refs['b'] = ('inc', wrap_list())
+        elif shape == 'both':
+            refs['b'] = (rnd.choice(('inc', 'exc')), wrap_list())
+            refs['c'] = ('exc' if refs['b'][0] == 'inc' else 'inc', rnd.choice((inner_list(own), wrap_list(), day_list())))
+        else:
+            refs['b'] = (rnd.choice(('inc', 'exc')), rnd.choice((wrap_list(), day_list(), inner_list(own))))
+            if rnd.random() < 0.5:
+                refs['c'] = (rnd.choice(('inc', 'exc')), rnd.choice((wrap_list(), day_list())))
+        names = ['a'] + sorted(refs)
+        order = list(names)
+        rnd.shuffle(order)
+        pos = order.index('a')
+        where = 'referencing-first' if pos == 0 else ('referencing-last' if pos == len(order) - 1 else 'referencing-between')
+        inc = [k for k in sorted(refs) if refs[k][0] == 'inc']
+        exc = [k for k in sorted(refs) if refs[k][0] == 'exc']
+        # keys: one date range over the whole stretch, or every weekday by name (the lists of the referenced periods then
+        # differ between odd and even weekdays)
+        D0 = datetime.date(1970, 1, 1) + datetime.timedelta(days=day0 - 2)
+        D1 = D0 + datetime.timedelta(days=9)
+        keymode = rnd.choice(('date-range', 'weekdays'))
+        all_trs = list(own)
+        body = []
+        for nm in order:
+            if nm == 'a':
+                body.append('tp_new name=a prefer=%d inc=%s exc=%s' % (rnd.randint(0, 1), ','.join(inc) or '-', ','.join(exc) or '-'))
+            else:
+                body.append('tp_new name=%s' % nm)
+        for nm in names:
+            lst = own if nm == 'a' else refs[nm][1]
+            if keymode == 'date-range':
+                s_, a_ = daydef(('d', D0.year, D0.month, D0.day), ('d', D1.year, D1.month, D1.day), 1)
+                body.append(range_line(nm, s_, a_, lst, rnd))
+                all_trs += lst
+            else:
+                alt = lst if nm == 'a' else (wrap_list() if rnd.random() < 0.5 else lst)
+                for wd in range(7):
+                    s_, a_ = daydef(('w', wd, 0, -1))
+                    l = lst if wd % 2 == 0 else alt
+                    body.append(range_line(nm, s_, a_, l, rnd))
+                    all_trs += l
+        lines = ['now %d' % n0, tz_line(zn, n0 - 5 * 86400, n0 + span + 7 * 86400),
+                 'tp_pts ' + ','.join(str(p) for p in roll_probes(zn, n0 - 3600, n0 + span + 2 * 86400 + 7200, all_trs))] + body
+        for nm in (order if rnd.random() < 0.7 else reversed(order)):
+            lines.append('tp_start name=%s' % nm)
+        t = n0
+        rounds = 0
+        stalled = rnd.random() < 0.7
+        while t < n0 + span:
+            l = (t + off_at(zn, t)) % 86400
+            near_midnight = l < 1500 or l > 86400 - 1500
+            if near_midnight:
+                step = 300
+            elif not stalled and rnd.random() < 0.02:
+                step = rnd.choice((5, 7, 9)) * 3600 + rnd.randrange(0, 3600)          # the daemon was stalled
+                stalled = True
+            else:
+                step = rnd.choice((3600, 3600, 1800, 7200, 300, 900, 2700 + rnd.randrange(0, 600)))
+            t += step
+            lines.append('now %d' % t)
+            lines.append('tp_timer')
+            rounds += 1
+            if rnd.random() < 0.1:
+                lines.append('tp_now name=a')
+        out.append({'lines': lines, 'tags': {'family': 'm2-rolling', 'zone': zn, 'roll_order': where, 'roll_shape': shape, 'roll_keys': keymode,
+                                            'roll_rounds': rounds, 'roll_hours': span // 3600, 'roll_crosses_transition': crosses,
+                                            'transition_window': crosses}})
+    return out
 
 
 # strings for the parser: hand-made corner cases of ParseTimeRange / ParseTimeSpec / ProcessTimeRanges ...
@@ -534,6 +844,19 @@ LENIENT_K = ['day 1 2 3', 'day +5', 'day 007', 'monday 2 march extra', 'day 1- 1
              'monday 1 - 3', 'march 1 - april 5', '2034-03-25 - 2034-03-31']
 LENIENT_V = ['9:0-17:0', '09:00:30-17:00:15', '25:00-26:00', '09:60-10:00', '09:00-09:00', '+9:00-17:00', '24:00-24:00', '1:2:3-4:5:6', '00:00-48:00',
              '22:00-06:00', '00:00-24:00']
+
+
+def written_trs(v):
+    """(begin, end) in seconds of the day as written, of an ACCEPTED time range list (only used to place probes)"""
+    out = []
+    for part in v.split(','):
+        a, b = part.split('-')
+
+        def tod(x):
+            f = [int(y) for y in x.split(':')] + [0]
+            return f[0] * 3600 + f[1] * 60 + f[2]
+        out.append((tod(a), tod(b)))
+    return out
 
 
 def mutate(rnd, t):
@@ -606,7 +929,7 @@ def gen_parse_families(rnd, tier):
             wb = mk_local(zn, days_from_civil(y, m, d) * 86400) + rnd.choice((0, 3600 * 6, 43200))
             we = wb + 8 * 86400
             lines = ['now %d' % T0, tz_line(zn, wb - 5 * 86400, we + 5 * 86400),
-                     'tp_pts ' + ','.join(str(p) for p in cal_probes(zn, wb, we, [(0, 86400), (32400, 61200)])), 'tp_new name=a',
+                     'tp_pts ' + ','.join(str(p) for p in cal_probes(zn, wb, we, [(0, 86400), (32400, 61200)] + written_trs(v))), 'tp_new name=a',
                      'tp_range name=a k=%s v=%s' % (hx(k), hx(v)), 'tp_upd name=a b=%d e=%d clear=1' % (wb, we)]
             out.append({'lines': lines, 'tags': {'family': 'm2-parse-lenient', 'zone': zn}})
     return out
@@ -758,6 +1081,50 @@ def gen_month_family(rnd, tier):
     return out
 
 
+def directed_rolling():
+    """the two staleness findings, every creation (= update) order, through Start() and the real timer handler:
+       start-order     work = 09:00-17:00 (or 00:00-24:00) excluding lunch = 12:00-13:00, started at 10:00, 5-minute rounds
+                       until 12:30, is_inside asked at the clock: wrong when lunch was started after work (work's valid_end
+                       lies beyond now + 24 h, every round returns early and merges nothing)
+       nested-include  a = 09:00-10:00 including b = 00:00-24:00 excluding c = 12:00-13:00, a day and a half of rounds:
+                       wrong from the second day on whenever c is updated after b"""
+    out = []
+    zn = 'UTC'
+    day0 = T0 // 86400 + 10
+    n0 = mk_local(zn, day0 * 86400) + 10 * 3600
+    D0 = datetime.date(1970, 1, 1) + datetime.timedelta(days=day0 - 2)
+    D1 = D0 + datetime.timedelta(days=9)
+    s_, a_ = daydef(('d', D0.year, D0.month, D0.day), ('d', D1.year, D1.month, D1.day), 1)
+    news = {'a': 'tp_new name=a prefer=1 inc=b exc=-', 'b': 'tp_new name=b prefer=1 inc=- exc=c', 'c': 'tp_new name=c'}
+    for order in ('bc', 'cb'):
+        for own_b in ([(0, 86400)], [(9 * 3600, 17 * 3600)]):
+            trs = {'b': own_b, 'c': [(12 * 3600, 13 * 3600)]}
+            lines = ['now %d' % n0, tz_line(zn, n0 - 5 * 86400, n0 + 9 * 86400),
+                     'tp_pts ' + ','.join(str(x) for x in roll_probes(zn, n0 - 3600, n0 + 3 * 86400, own_b + trs['c']))]
+            lines += [news[nm] for nm in order] + [range_line(nm, s_, a_, trs[nm], None) for nm in 'bc']
+            lines += ['tp_start name=%s' % nm for nm in order]
+            t = n0
+            while t < n0 + 2 * 3600 + 1800:
+                t += 300
+                lines += ['now %d' % t, 'tp_timer']
+            lines += ['tp_now name=b', 'tp_now name=c']
+            out.append({'lines': lines, 'tags': {'family': 'm2-directed-start-order', 'zone': zn, 'roll_order': order}})
+    for order in ('abc', 'acb', 'bac', 'bca', 'cab', 'cba'):
+        trs = {'a': [(9 * 3600, 10 * 3600)], 'b': [(0, 86400)], 'c': [(12 * 3600, 13 * 3600)]}
+        lines = ['now %d' % n0, tz_line(zn, n0 - 5 * 86400, n0 + 9 * 86400),
+                 'tp_pts ' + ','.join(str(x) for x in roll_probes(zn, n0 - 3600, n0 + 3 * 86400, sum(trs.values(), [])))]
+        lines += [news[nm] for nm in order] + [range_line(nm, s_, a_, trs[nm], None) for nm in 'abc']
+        lines += ['tp_start name=%s' % nm for nm in order]
+        t = n0
+        while t < n0 + 86400 + 2 * 3600:
+            t += 300 if n0 + 3600 < t < n0 + 4 * 3600 else 1800
+            lines += ['now %d' % t, 'tp_timer']
+        t = n0 + 86400 + 2 * 3600 + 1800                       # 12:30 on the next day
+        lines += ['now %d' % t, 'tp_timer', 'tp_now name=a', 'tp_now name=b']
+        out.append({'lines': lines, 'tags': {'family': 'm2-directed-nested-include', 'zone': zn, 'roll_order': order}})
+    return out
+
+
 def directed_m2():
     """hand-aimed cases: the witnesses of F-C08-b / F-C08-c and the unit test's shapes"""
     out = []
@@ -847,6 +1214,25 @@ def classify(case, detail, impl_lines):
         return 'calendar-hypotheses'
     if 'op=tp_parse' in detail:
         return 'parse'
+    if 'violates-C08 stale-reference' in detail:
+        return 'stale-reference'
+    if 'violates-C08 rolling' in detail:
+        # the judged period includes a period that has includes / excludes of its own: what that one wrongly reported for a
+        # round stays (known finding); anything else in a rolling case is not known
+        import re
+        m = re.search(r' name=(\S+)', detail)
+        news = {}
+        for l in case['lines']:
+            if l.startswith('tp_new '):
+                kv = dict(x.split('=', 1) for x in l.split()[1:] if '=' in x)
+                news[kv.get('name')] = kv
+        me = news.get(m.group(1)) if m else None
+        if me:
+            for q in (me.get('inc', '-') or '-').split(','):
+                qq = news.get(q)
+                if qq and ((qq.get('inc', '-') not in ('-', '')) or (qq.get('exc', '-') not in ('-', ''))):
+                    return 'include-of-excluding-period'
+        return 'rolling'
     if 'calendar' in detail:
         if detail.endswith('class=1'):
             return 'wrap-first-day'
@@ -854,6 +1240,8 @@ def classify(case, detail, impl_lines):
             return 'stride-dst'
         if detail.endswith('class=5'):
             return 'is-inside'
+        if detail.endswith('class=7'):
+            return 'probes'
         return 'calendar'
     if 'violates-C08 remove' in detail:
         return 'remove-segment'
@@ -865,22 +1253,23 @@ def classify(case, detail, impl_lines):
 
 
 def _canon_segs(field, vb, ve):
-    """segments as a set of instants inside the valid window: drop empty ones, clip to [valid_begin, valid_end]
-    (IsInside ignores the segments outside it), sort, merge overlapping/adjacent.  The array representation
-    (order, merged or not, remains before valid_begin after a purge) is not part of the property; the IsInside
-    bits and the window are."""
-    if field == '-':
-        return '-'
+    """the state as the function IsInside that the API shows: segments as a set of instants inside the valid window (drop
+    empty ones, clip to [valid_begin, valid_end] - IsInside ignores what lies outside -, sort, merge overlapping/adjacent),
+    and a stretch of "inside" that begins exactly at valid_begin is indistinguishable from valid_begin lying at its end
+    (before valid_begin everything is inside), so valid_begin is moved there.  The array representation (order, merged
+    or not, remains before valid_begin after a purge, whether a segment reaching back before the computed region moved
+    valid_begin) is not part of the property; the IsInside bits are.  -> (segments, valid_begin)"""
     segs = []
-    for sg in field.split(','):
-        i = sg.index('-', 1)
-        b, e = int(sg[:i]), int(sg[i + 1:])
-        if vb is not None:
-            b = max(b, vb)
-        if ve is not None:
-            e = min(e, ve + 1)
-        if b < e:
-            segs.append((b, e))
+    if field != '-':
+        for sg in field.split(','):
+            i = sg.index('-', 1)
+            b, e = int(sg[:i]), int(sg[i + 1:])
+            if vb is not None:
+                b = max(b, vb)
+            if ve is not None:
+                e = min(e, ve + 1)
+            if b < e:
+                segs.append((b, e))
     segs.sort()
     out = []
     for b, e in segs:
@@ -888,7 +1277,10 @@ def _canon_segs(field, vb, ve):
             out[-1] = (out[-1][0], max(out[-1][1], e))
         else:
             out.append((b, e))
-    return ','.join('%d-%d' % x for x in out) or '-'
+    if vb is not None and ve is not None and out and out[0][0] <= vb:
+        vb = out[0][1]
+        out = out[1:]
+    return (','.join('%d-%d' % x for x in out) or '-'), vb
 
 
 def canon(lines):
@@ -904,7 +1296,8 @@ def canon(lines):
             kv = dict(x.split('=', 1) for x in tail.split(' ') if '=' in x)
             vb = int(kv['vb']) if kv.get('vb', '-') != '-' else None
             ve = int(kv['ve']) if kv.get('ve', '-') != '-' else None
-            l = '%s segs=%s %s' % (pre, _canon_segs(f, vb, ve), tail)
+            sg, vb2 = _canon_segs(f, vb, ve)
+            l = '%s segs=%s vb=%s ve=%s in=%s' % (pre, sg, '-' if vb2 is None else vb2, kv.get('ve', '-'), kv.get('in', '-'))
         res.append(l)
     return res
 
@@ -946,7 +1339,18 @@ def extra_stats(cases, impl):
         }
     mrel = collections.Counter(c['tags'].get('month_rel') for c in cases if c['tags'].get('family') == 'm2-month-name')
     mform = collections.Counter(c['tags'].get('month_form') for c in cases if c['tags'].get('family') == 'm2-month-name')
+    rl = [c for c in cases if c['tags'].get('family') == 'm2-range-list']
+    ro = [c for c in cases if c['tags'].get('family') == 'm2-rolling']
     return {'zones': dict(zones), 'windows_on_dst_transition_days': trw,
+            'range_list_family': {'cases': len(rl), 'by_configuration': dict(collections.Counter(c['tags']['list_config'] for c in rl)),
+                                  'by_variant': dict(collections.Counter(c['tags']['list_variant'] for c in rl)),
+                                  'by_placement': dict(collections.Counter(c['tags']['list_mode'] for c in rl)),
+                                  'with_a_range_nested_in_another_and_ending_earlier': sum(1 for c in rl if c['tags'].get('list_nested_ending_earlier'))},
+            'rolling_family': {'cases': len(ro), 'timer_rounds': sum(c['tags']['roll_rounds'] for c in ro),
+                               'hours_per_case': dict(collections.Counter(c['tags']['roll_hours'] for c in ro)),
+                               'referencing_period_updated': dict(collections.Counter(c['tags']['roll_order'] for c in ro)),
+                               'shapes': dict(collections.Counter(c['tags']['roll_shape'] for c in ro)),
+                               'walking_over_a_dst_transition': sum(1 for c in ro if c['tags'].get('roll_crosses_transition'))},
             'compared_only_per_zone': {
                 'what': 'not covered by a theorem and therefore aimed at every transition of every zone that has one: mktime for local times '
                         'inside a skipped / repeated hour (libc primed with the local time two days earlier, against tp_tab_mk); proved only under '
